@@ -145,11 +145,13 @@ def gen_family(rng, modname):
             break
     for c in classes.values():
         for p in c['params']:
-            p.pop('nic', None); p.pop('dtype', None)
+            p.pop('dtype', None)            # `nic` (name_in_config) stays: the helpers read values under the config key
             if 'default' in p:
                 p['default'] = sanitize(p['default'])
             if p['name'] == 'pth':
                 p['name'] = 'pq'
+                if 'nic' in p:
+                    p['nic'] = 'pq_cfg'
         c['run_args'] = ['pq' if a == 'pth' else a for a in c['run_args']]
         for i_ in c['inputs']:
             if 'default' in i_:
@@ -210,7 +212,11 @@ def model_tasks(classes, real, modname):
                 use.append([a, [n.split(':')[-1] for n in names].index(a)])
         for nm in c.get('pull', []):
             use.append([nm, names.index(nm)])
-        out.append({'slug': gen.slug_of(c, modname), 'params': [[p['name'], p['default']] if 'default' in p else [p['name']] for p in c['params']],
+        def pdecl(p):
+            if p.get('nic'):
+                return dict({'n': p['name'], 'k': p['nic']}, **({'d': p['default']} if 'default' in p else {}))
+            return [p['name'], p['default']] if 'default' in p else [p['name']]
+        out.append({'slug': gen.slug_of(c, modname), 'params': [pdecl(p) for p in c['params']],
                     'inputs': ins, 'use': use, 'persist': c['kind'] != 'memory'})
     return out
 
@@ -353,7 +359,9 @@ def one_family(ctx, i, root, reqs, metas):
         for cid in real:
             for p in classes[cid]['params']:
                 if 'default' not in p or rng.random() < 0.5:
-                    given.setdefault(p['name'], sanitize(gen.gen_value(rng, 1, 3, gen.SAFE, gen.SAFE)))
+                    if p.get('nic'):
+                        ctx.count('name-in-config')
+                    given.setdefault(p.get('nic', p['name']), sanitize(gen.gen_value(rng, 1, 3, gen.SAFE, gen.SAFE)))
         if len(real) > 1 and rng.random() < 0.2:
             # a class that is given as a task *and* mocked: the mock wins (`tasks[name] = MockTask(value)`)
             over = rng.choice([c for c in real if c != target])
@@ -376,7 +384,7 @@ def one_family(ctx, i, root, reqs, metas):
             else:
                 scenario = 'fresh'
         if scenario == 'missing-param':
-            req_p = [p['name'] for c in real for p in classes[c]['params'] if 'default' not in p]
+            req_p = [p.get('nic', p['name']) for c in real for p in classes[c]['params'] if 'default' not in p]
             if req_p:
                 del given[rng.choice(req_p)]
             else:
@@ -413,7 +421,7 @@ def one_family(ctx, i, root, reqs, metas):
                          'given': [[k, mform(v)] for k, v in gv.items()], 'store': store, 'requests': requests})
             metas.append((dict(case, round=rno, mocks=mk, given=mform(gv)), impl, 'TestChain' if not via_create else 'create_test_task'))
             # ---- oracle: reference for what is missing, and the real chain
-            miss_p = [p['name'] for c in real for p in classes[c]['params'] if 'default' not in p and p['name'] not in gv]
+            miss_p = [p['name'] for c in real for p in classes[c]['params'] if 'default' not in p and p.get('nic', p['name']) not in gv]
             have = {slug[c] for c in real} | set(mk)
             eff = [c for c in real if slug[c] not in mk]
             miss_i = [(i_['ref'] if i_['by'] == 'name' else slug[i_['ref']]) for c in eff for i_ in classes[c]['inputs']
